@@ -2,6 +2,7 @@
 properties."""
 import ast
 
+from .match import FnText
 from ..model import AnalysisError, norm, walk_no_nested
 from ..cfg import build_cfg, node_defs, node_exprs
 from ..flow import Slice
@@ -308,7 +309,7 @@ def closest_combination_distance(ctx, rule='A5d'):
            'the distance ignores forced choices: they are not design variables, their requested value is a '
            'placeholder and must not pull the correction towards low option indices', txt[:160])
     # exact matches are compared on the non-forced choices only
-    t = ' '.join(norm(s) for s in inner.body)
+    t = FnText(ctx, inner)
     ok = 'np.all(opt_idx_comb[non_forced_mask] == mod_opt_idx[non_forced_mask])' in t
     ctx.ob(rule, fkey(inner, rule, 'exact-match-on-non-forced'), ok, inner.where,
            'a requested vector that agrees with a valid combination on every non-forced choice selects that '
